@@ -70,8 +70,12 @@ def run_one(B, shim, wd, rq, bursts, exitcode=0, sig=0, pad=0, timeout=60, extra
          ] + (['X-ECHS-UMASK:0%o' % rq['umask']] if not rq.get('noumask') else []) + ['X-ECHS-MAIL-RUN:0', 'X-ECHS-MAIL-OUT:%d' % int(rq['mo']), 'X-ECHS-MAIL-ERR:%d' % int(rq['me']),
          'X-ECHS-IFILE:' + d + '/in.txt']
     files = {'F1': d + '/f1.txt', 'F2': d + '/f2.txt'}
-    if rq['so']: L.append('X-ECHS-OFILE:' + files[rq['so']])
-    if rq['se']: L.append('X-ECHS-EFILE:' + files[rq['se']])
+    if rq.get('relfiles'):
+        # the output files are named relative to the working directory of the job (echsx itself is started elsewhere)
+        files = {'F1': d + '/cwd/f1.txt', 'F2': d + '/cwd/f2.txt'}
+    rel = (lambda f: os.path.basename(f)) if rq.get('relfiles') else (lambda f: f)
+    if rq['so']: L.append('X-ECHS-OFILE:' + rel(files[rq['so']]))
+    if rq['se']: L.append('X-ECHS-EFILE:' + rel(files[rq['se']]))
     L += ['ORGANIZER:echse', 'ATTENDEE:root'] + list(extra_vtodo) + ['END:VTODO', 'END:VCALENDAR', '']
     env = dict(os.environ, XSHIM_DIR=d, XSHIM_MAILER=MAILER, LD_PRELOAD=shim)
     if noalarm: env['XSHIM_NOALARM'] = '1'
